@@ -17,6 +17,7 @@ TNext ==
      \/ Ev.ev = "put" /\ PPut(Ev)
      \/ Ev.ev = "get" /\ PGet(Ev)
      \/ Ev.ev = "delete" /\ PDelete(Ev)
+     \/ Ev.ev = "redir" /\ PRedir(Ev)
      \/ Ev.ev \in {"broken", "nosession", "other", "auth"} /\ PNote
      \/ Ev.ev = "result" /\ PResult(Ev)
 TSpec == TInit /\ [][TNext]_<<pvars, l>>
